@@ -46,7 +46,9 @@ Theorem C09_all_dated : forall cfg w st,
 Proof. exact C09_all_dated_holds. Qed.
 
 (* (c) the two date formulas, in terms of the ledger before the task was placed ([before]), the
-   task's own rows ([new], the first work day at the head) and the later rows ([after]) *)
+   task's own rows ([new], the first work day at the head) and the later rows ([after]); the day of
+   the end had free capacity when the task was placed (0 <= used before < cap: the share is below 1,
+   the day has capacity) - also for a leaf with no work left, which reserves nothing (new = [], s = e) *)
 Theorem C09_encode : forall cfg w st,
   WFin w -> cap_nonneg cfg -> no_user_dates w = true -> backward cfg w = Ok st ->
   C09_encode_statement cfg w st.
@@ -61,7 +63,11 @@ Theorem C09_late : forall cfg w st,
 Proof. exact C09_late_holds. Qed.
 
 (* (e) the executable oracle evaluated on the implementation's output means the statement on the
-   observed schedule ... *)
+   observed schedule (c09_task_statement; for a working leaf WITHOUT usage rows - no work left - it says
+   c09_norows_on / c09_norows_off: start = end, the end's day has capacity, balancing off: the end is
+   the midnight following that day; balancing on: the end encodes the share of that day booked by some
+   prefix of rows() - the moment the task was placed - and therefore lies between the midnight minus the
+   share booked on that day in the whole schedule and the midnight) ... *)
 Theorem C09_oracle_meaning : forall cfg w o t,
   c09_task_b cfg w o t = true <-> c09_task_statement cfg w o t.
 Proof. exact c09_task_b_spec. Qed.
